@@ -2,11 +2,12 @@
 CHECK = {
     "pkg": ".", "files": ["root/fwref_test.go", "root/c16_test.go"], "run": "^TestC16",
     "quick": {"scale": 1, "shards": 1, "timeout": 600},
-    "thorough": {"scale": 25, "shards": 8, "timeout": 1800},
+    "thorough": {"scale": 15, "shards": 8, "timeout": 1800},
     "rule": "rapid draws of a node certificate (1-3 overlay networks, 0-3 unsafe networks, default_local_cidr_any), a peer "
             "certificate (name, groups, 1-3 networks inside/outside the node's, unsafe networks, issuer in/out of the CA pool), "
             "0-8 rules added through AddRule over colliding universes (proto any/tcp/udp/icmp/icmpv6; port any, fragment, 0-x, "
-            "single, range; groups incl. any; host; cidr; local_cidr; ca_name; ca_sha) and 4 packets per rule set whose addresses "
+            "single, range; groups incl. any; host; cidr; local_cidr; ca_name; ca_sha; a third of the rules are variants of an earlier rule, "
+            "a quarter of the rule sets share one proto/port/CA bucket, a sixth are ladders of nested remote/local prefixes around a target packet) and 4 packets per rule set whose addresses "
             "satisfy the C17 precondition; Drop on a fresh conntrack is compared with a flat reference evaluator "
             "(exists rule: proto AND port AND ca AND local AND peer), and an allowed packet must be tracked. A metamorphic test "
             "checks invariance under rule reordering and splitting OR-clauses into separate rules. "
